@@ -103,6 +103,15 @@ def check_compose(ctx, api, dump, w, quick):
 def run(ctx):
     from pykdebugparser.pykdebugparser import PyKdebugParser
     rnd = random.Random(ctx.seed)
+    # generator-grain sessions on one object (spec/Sessions.tla): listings read alternately, abandoned half way, options
+    # edited in place between requests; every next() validated by Sessions_Val, design model-checked by Sessions_MC
+    from . import sessions
+    from . import c13 as _c13
+    sessions.model_check(ctx)
+    for i_ in range(2):
+        sessions.run_sessions(ctx, random.Random(ctx.seed * 2 + 77 + i_), 120 if ctx.quick else 2500, ('tr', 'tr', 'fkev'),
+                              lambda r, world=None: _c13.gen_dump(r, world=world, orphans=0.3, samples=0.0),
+                              sessions.cfg_light, 'ses%d_' % i_)
     ctx.expect_ok(run_tlc('Format_MC', CFG % (3 if ctx.quick else 4, TPL, 'proc'), ctx.workdir, name='format_proc',
                           timeout=7200))
     ctx.expect_ok(run_tlc('Format_MC', CFG % (1, TPL, 'cols'), ctx.workdir, name='format_cols', timeout=600))
